@@ -92,14 +92,17 @@ func classify(s *Spec, t *Taint, inMark bool) {
 	case "gogostatus":
 		U(0)
 		U(1)
-	case "domnew", "goerr", "pkgnew", "grpcstatus", "unknownnet", "uleafptr", "uleafval", "uleafnc", "uleaffmtold", "rleaf", "risleaf", "uoptleaf",
+	case "domnew", "goerr", "ucodedanon", "pkgnew", "grpcstatus", "unknownnet", "uleafptr", "uleafval", "uleafnc", "uleaffmtold", "rleaf", "risleaf", "uoptleaf",
 		"hint", "detail", "handledmsg", "goerrorf", "goerrorfsuffix", "goerrorfecho", "pkgmsgecho", "pkgmsg", "pkgwrap", "uwrapnofmt", "uwrapcause", "uwrapsuffix", "uwrapoverride", "uopt", "uwrapfmtold", "rwrapfull", "uwrapasself", "uleafas",
-		"goerrorfmulti", "umulti", "rmulti", "umulticause", "umulticauser", "umultias", "umultiis":
+		"goerrorfmulti", "umulti", "rmulti", "umulticause", "umulticauser", "umultias", "umultiis", "umultiholes":
 		U(0)
 	case "addrerr", "dnsleaf", "dnswrap", "uleafformatter", "uwrapformatter", "uhinter":
 		U(0)
 		U(1)
-	case "uleafsafefmt", "uwrapsafefmt":
+	case "uwrapstackdetails":
+		N(0) // safe details declared by a user type
+		U(1)
+	case "uleafsafefmt", "uwrapsafefmt", "uwrapbothfmt":
 		N(0)
 		U(1)
 	case "telemetry":
